@@ -322,9 +322,17 @@ class RandGen:
 
     def chain(self, depth=None, last_indexed=None, conns=("and", "or")):
         rng = self.rng
+        spell = {"and": ["and", "and", "&&", "AND", "And"], "or": ["or", "or", "||", "OR", "Or"]}
+        if depth is None and last_indexed is None and rng.random() < 0.3:
+            # every comparison on the SAME field (ranges, unions of ranges refined again: "(F > a Or F < b) And F >= c"):
+            # the operands of a refinement then come from one index, in whatever order the union left them
+            f = rng.choice(["K", "S"] + self.flds)
+            q = [self.cmp(fields=[f])]
+            for i in range(1, rng.choice([2, 3, 3, 4])):
+                q.append(self.cmp(fields=[f], conn=rng.choice(spell[rng.choice(conns)])))
+            return q
         depth = depth or rng.choice([1, 1, 2, 2, 3])
         q = [self.cmp()]
-        spell = {"and": ["and", "and", "&&", "AND", "And"], "or": ["or", "or", "||", "OR", "Or"]}
         for i in range(1, depth):
             q.append(self.cmp(conn=rng.choice(spell[rng.choice(conns)])))
         if last_indexed:
@@ -352,7 +360,7 @@ class RandGen:
 
 
 # custom schemas (harness: custom()): which fields get other constraints than their struct tags
-CUST_FIELDS = {1: ["A"], 2: ["U"], 3: ["V"], 4: ["F", "E"], 5: ["V", "Z"], 6: ["Z"], 7: ["R"], 8: ["Z"]}
+CUST_FIELDS = {1: ["A"], 2: ["U"], 3: ["V"], 4: ["F", "E"], 5: ["V", "Z"], 6: ["Z"], 7: ["R"], 8: ["Z"], 9: ["T"]}
 
 
 def random_test(uni, rng, idx, nops=40, nslots=8, p_reopen=0.06, p_batch=0.12, p_del=0.15, cfgs=None, pal=None, fields=None,
@@ -968,6 +976,14 @@ def reentry_tests(uni, rng, reps=150):
         "delq": [{"op": "delq", "q": [{"f": "A", "op": "=", "p": 9}]}],
     }
     out = []
+    # a bulk import whose producer uses the same handle between two objects (sequential test: the producer is a goroutine
+    # of the driver's own)
+    for ci, c in enumerate([(False, False), (True, False), (False, True), (True, True)]):
+        for cs in (0, 1, 2):
+            out.append({"id": "re-bulkfeed-%d-%d" % (ci, cs), "cfg": make_cfg(c[0], c[1], (ci * 5) % len(STORAGE), thr=1, tmo_ms=100),
+                        "ops": [{"op": "put", "slot": 1, "o": obj(1, 6)},
+                                {"op": "bulkfeed", "batch": [{"slot": 2 + j, "o": obj(2 + j, 7 + j)} for j in range(5)], "csize": cs}],
+                        "fields": ["K"], "norecord": True})
     for name, ops in kinds.items():
         for ci, c in enumerate([(False, False), (True, False), (False, True), (True, True)]):
             setup = [{"op": "put", "slot": s, "o": obj(s, 5 + s)} for s in (1, 2, 3)]
@@ -1002,11 +1018,9 @@ def race_stress_tests(uni, rng, reps=60, scale=1):
     """C08 memory part: every kind of call repeated in one goroutine against a writer and against calls on a SECOND collection
     of the same handle (whose first access after Open loads its schema), after a reopen or not; run under the race detector
     without any driver-side synchronisation."""
-    tests = reentry_tests(uni, rng, reps=reps)
+    tests = [t for t in reentry_tests(uni, rng, reps=reps) if "threads" in t]      # (the sequential bulk-feed tests are C09's)
     out = []
     for i, t in enumerate(tests):
-        if i % max(1, scale) and scale > 1:
-            pass
         aux = [{"op": "xcount"}, {"op": "xput", "slot": 1 + i % 3, "k": i % 5, "a": i % 3}, {"op": "xget", "slot": 1 + i % 3}, {"op": "xall"}, {"op": "xq"}]
         t = dict(t, id="rs" + t["id"][2:], aux=True, norecord=True, reopen=(i % 2 == 0), perturb=(i % 3 == 0))
         t["threads"] = [t["threads"][0], t["threads"][1][: reps // 2], (aux * reps)[:reps]]
